@@ -640,6 +640,7 @@ struct TExp
 {
     bool judged = true;                  // false: the property does not fix the outcome (only safety applies)
     bool none = false;                   // no packet expected
+    bool multi = false;                  // data message followed by further bytes (further entries): only the first packet is judged
     uint8_t kind = 0;                    // 'C' can, 'L' lin, 'M' cm status, 'B' bus status
     uint16_t dataType = 0;
     uint8_t device = 0;
@@ -678,12 +679,30 @@ static TExp expectTecmp(const Bytes& f)
     size_t avail = f.size() - ref::TECMP_HDR;
     if (plen == 0 || plen > avail)
         return e;   // declared payload does not fit the buffer / nothing to convert
+    const uint8_t* p = &f[ref::TECMP_HDR];
     if (plen < avail)
     {
-        e.judged = false;   // bytes after the declared payload: not a well-formed message, outcome not fixed by the property
+        // Bytes after the declared payload (a TECMP frame may carry further entries, each with its own 16-byte entry header). For a
+        // supported data message whose first entry is consistent WITHIN its declared length the packet for that entry is fixed by the
+        // property (its interface id, timestamp, ids and data are those of the FIRST entry header); what is made of the rest is not.
+        e.judged = false;
+        if (mt == ref::TM_DATA && (dt == ref::TD_CAN || dt == ref::TD_CANFD) && plen >= 5 && (size_t) 5 + p[4] <= plen)
+        {
+            e.judged = true; e.multi = true; e.none = false; e.kind = 'C';
+            e.arbId = (uint32_t) ref::rd(p, 4);
+            e.data.assign(p + 5, p + 5 + p[4]);
+        }
+        else if (mt == ref::TM_DATA && dt == ref::TD_LIN && plen >= 2 && (size_t) 2 + p[1] <= plen)
+        {
+            e.judged = true; e.multi = true; e.none = false; e.kind = 'L';
+            e.pid = p[0];
+            e.data.assign(p + 2, p + 2 + p[1]);
+            e.hasChecksum = plen > (size_t) 2 + p[1];
+            if (e.hasChecksum)
+                e.checksum = p[2 + p[1]];
+        }
         return e;
     }
-    const uint8_t* p = &f[ref::TECMP_HDR];
     if (dt == 0xFF00 && mt != ref::TM_DATA)
     {
         // Status messages carry no meaningful data type; the library uses the byte pattern FF 00 as its
@@ -784,7 +803,16 @@ static void judgeC15(W& w, const Bytes& f)
         return;
     }
     size_t want = e.kind == 'B' ? e.entries.size() : 1;
-    if (r.packets.size() != want)
+    if (e.multi)
+    {
+        if (r.packets.empty())
+        {
+            w.fail(fmt("tecmp:packet-count:%c", e.kind), fmt("TECMP data message of kind %c followed by further bytes: no packet returned for its first entry", e.kind));
+            return;
+        }
+        r.packets.resize(1);   // only the first entry's packet is fixed by the property
+    }
+    else if (r.packets.size() != want)
     {
         w.fail(fmt("tecmp:packet-count:%c", e.kind), fmt("well-formed TECMP message of kind %c: %zu packet(s) returned, expected %zu", e.kind, r.packets.size(), want));
         return;
@@ -916,6 +944,50 @@ static void tecmpEnumerate(const TTask& t, bool thorough, Fn fn)
                 fn(g);
             }
     };
+    if (t.part == 'E')   // a supported data message followed by further bytes: a second entry (well-formed / lying), header-like and zero trails
+    {
+        for (int kind = 0; kind < 3; ++kind)
+            for (int v : {0, 4, 13, 26})
+            {
+                ref::TecmpHdr h = hdr(v);
+                h.msgType = ref::TM_DATA; h.dataType = kind == 0 ? ref::TD_CAN : (kind == 1 ? ref::TD_CANFD : ref::TD_LIN);
+                const size_t len = (size_t) t.a;
+                if (kind == 0 && len > 8)
+                    continue;
+                Bytes first = kind == 2 ? ref::tecmpLinPayload(0x2A, (uint8_t) len, patt(len, 3), (v & 1) != 0, 0x5C) : ref::tecmpCanPayload(0x321, (uint8_t) len, patt(len, 4), v == 13 ? 2 : 0);
+                Bytes base = ref::tecmpFrame(h, first);   // declared length = the first entry only
+                auto entry = [&](uint32_t ifid, uint64_t ts, uint16_t plen, const Bytes& body) {
+                    Bytes x;
+                    ref::put32(x, ifid);
+                    for (int i = 7; i >= 0; --i)
+                        ref::put8(x, (uint8_t) (ts >> (8 * i)));
+                    ref::put16(x, plen);
+                    ref::put16(x, 0);
+                    ref::putbytes(x, body);
+                    return x;
+                };
+                Bytes second = kind == 2 ? ref::tecmpLinPayload(0x11, 3, patt(3, 5), true, 0x77) : ref::tecmpCanPayload(0x100, 2, patt(2, 6), 0);
+                std::vector<Bytes> trails = {
+                    entry(0x0A0B0C0D, 0x1112131415161718ull, (uint16_t) second.size(), second),                 // a well-formed second entry, other interface id and timestamp
+                    entry(0x0A0B0C0D, 0x1112131415161718ull, (uint16_t) (second.size() + 9), second),           // second entry announces more than follows
+                    entry(0x0A0B0C0D, 0x1112131415161718ull, 1, second),                                        // second entry announces one byte
+                    entry(0x0A0B0C0D, 0x1112131415161718ull, 0, {}),                                            // empty second entry
+                    Bytes(40, 0x01), Bytes(16, 0x01), Bytes(15, 0x01), Bytes(16, 0x00), Bytes(1, 0x00),
+                };
+                {
+                    Bytes two = entry(0x0A0B0C0D, 0x1112131415161718ull, (uint16_t) second.size(), second);
+                    Bytes third = entry(0x01010101, 0x2122232425262728ull, (uint16_t) second.size(), second);
+                    two.insert(two.end(), third.begin(), third.end());
+                    trails.push_back(two);   // three entries
+                }
+                for (auto& tr : trails)
+                {
+                    Bytes g = base;
+                    g.insert(g.end(), tr.begin(), tr.end());
+                    fn(g);
+                }
+            }
+    }
     if (t.part == 'C')   // CAN / CAN-FD: data length t.a (0..64), all arbitration ids, crc trailers, header variants; plus inconsistent lengths
     {
         const uint32_t arbs[] = {0, 0x321, 0x1FFFFFFF};
@@ -1103,6 +1175,8 @@ static std::vector<TTask> tecmpTasks(bool thorough, bool forSafety)
         t.push_back({'C', n, 0});
     for (int n = 0; n <= (thorough ? 64 : 8); ++n)
         t.push_back({'L', n, 0});
+    for (int n : {0, 1, 4, 8, 12, 64})
+        t.push_back({'E', n, 0});
     t.push_back({'M', 0, 0});
     std::vector<int> counts = {0, 1, 2, 9, 40};
     if (thorough)
@@ -1907,7 +1981,7 @@ int main(int argc, char** argv)
             w.add(mc::C_STATES, 1);
         });
         auto tt = tecmpTasks(thorough, false);
-        for (char part : {'C', 'L', 'M', 'B', 'X', 'D'})
+        for (char part : {'C', 'L', 'E', 'M', 'B', 'X', 'D'})
         {
             std::vector<TTask> ts;
             for (auto& t : tt)
@@ -1915,7 +1989,7 @@ int main(int argc, char** argv)
                     ts.push_back(t);
             if (ts.empty())
                 continue;
-            const char* nm = part == 'C' ? "CAN / CAN-FD" : (part == 'L' ? "LIN" : (part == 'M' ? "capture-module status" : (part == 'B' ? "bus status" : (part == 'X' ? "all message types x data types x lengths" : "all 65536 data types"))));
+            const char* nm = part == 'C' ? "CAN / CAN-FD" : part == 'E' ? "CAN / CAN-FD / LIN data message followed by further bytes (second and third entries, lying and empty entry headers, header-like and zero trails)" : (part == 'L' ? "LIN" : (part == 'M' ? "capture-module status" : (part == 'B' ? "bus status" : (part == 'X' ? "all message types x data types x lengths" : "all 65536 data types"))));
             run.round(nm, ts.size(), [&, ts](W& w, uint64_t o) {
                 tecmpEnumerate(ts[o], thorough, [&](const Bytes& f) {
                     auto desc = [&] { return "f=" + mc::hex(f); };
